@@ -33,6 +33,22 @@ Theorem check_sound :
 Proof. exact check_all_sound. Qed.
 Print Assumptions check_sound.
 
+(** (a1') ... and exact: whenever the work-list traversal finished within its fuel (a boolean,
+    [true] for the regenerated graph by [traversal_finished] below) the check is EQUIVALENT to the
+    statement about all paths, so a failing check always means a source occurrence that does lie on
+    a path from an entry point and is not on the reviewed list — for ALL graphs. *)
+Theorem check_exact :
+  forall (g : graph) (roots : list positive) (srcs : list (positive * desc)) (allow : list entry),
+    finished g roots = true ->
+    (check_all g roots srcs allow = true
+     <-> forall n d, path g roots n -> In (n, d) srcs -> sanctioned_in allow d).
+Proof. exact check_all_exact. Qed.
+Print Assumptions check_exact.
+
+Theorem traversal_finished : finished G roots = true.
+Proof. exact traversal_finished_G. Qed.
+Print Assumptions traversal_finished.
+
 (** (a2) THE PER-RUN THEOREM, about the graph of the code as it is now: every source occurrence
     [d] (function, kind, ordinal) attached to a node [n] that lies on some path from a root is
     sanctioned.  Finite domain: the nodes, edges, roots and sources of [Gen/CallGraph.v];
